@@ -222,7 +222,7 @@ def rand_cfg(rng):
     c["verb_post"] = opt(0.5, lambda: L(rng.choice([b"POST", b"GET"])))
     c["get_prog"] = opt(0.6, lambda: prog(1))
     c["post_prog"] = opt(0.6, lambda: prog(2))
-    c["recover"] = opt(0.6, lambda: [{"op": "PRINT", "arg": 0}] + [{"op": o, "arg": rng.randrange(0, 40) if o in ("APPEND", "PREPEND") else 0}
+    c["recover"] = opt(0.6, lambda: [{"op": "PRINT", "arg": 0}] + [{"op": o, "arg": rng.choice([rng.randrange(0, 40), rng.randrange(0, 40), 4096, 65535, 65536, 70001]) if o in ("APPEND", "PREPEND") else 0}
                                                                   for o in [rng.choice(["APPEND", "PREPEND", "BASE64", "BASE64URL", "NETBIOS", "NETBIOSU", "MASK"]) for _ in range(rng.randrange(0, 5))]])
     c["spawnto_x86"] = opt(0.4, lambda: txt(40))
     c["spawnto_x64"] = opt(0.4, lambda: txt(40))
@@ -231,7 +231,9 @@ def rand_cfg(rng):
     c["minalloc"] = opt(0.4, lambda: rng.choice([0, 1, 4096, 17500]))
     c["tx86"] = opt(0.4, lambda: {"append": raw(8), "prepend": raw(8)})
     c["tx64"] = opt(0.4, lambda: {"append": raw(8), "prepend": raw(8)})
-    c["exec"] = opt(0.5, lambda: [{"code": k, "off": rng.choice([0, 1, 255, 4096]) if k in (6, 7) else 0, "mod": L(b"ntdll") if k in (6, 7) else [], "fn": L(b"RtlUserThreadStart") if k in (6, 7) else [], "pad": 0}
+    MODS = [b"ntdll", b"ntdll", b"kernel32.dll", b"My Helper.dll", b"a\\b.dll", b"k'32", b"C:\\x\\'y'.dll"]
+    FNS = [b"RtlUserThreadStart", b"RtlUserThreadStart", b"LoadLibraryA", b"Thread Start", b"f\\n", b"it's"]
+    c["exec"] = opt(0.5, lambda: [{"code": k, "off": rng.choice([0, 1, 255, 4096]) if k in (6, 7) else 0, "mod": L(rng.choice(MODS)) if k in (6, 7) else [], "fn": L(rng.choice(FNS)) if k in (6, 7) else [], "pad": 0}
                                   for k in [rng.choice([1, 2, 3, 4, 5, 6, 7, 8]) for _ in range(rng.randrange(1, 6))]])
     c["allocator"] = opt(0.4, lambda: rng.choice([0, 1]))
     c["dns_beacon"] = opt(0.3, lambda: L(b"b."))
